@@ -61,10 +61,11 @@ class Ev:
 
 
 class SPath:
-    __slots__ = ("fn", "blocks", "atoms", "events", "stores", "ret", "trace")
+    __slots__ = ("fn", "blocks", "atoms", "events", "stores", "ret", "trace", "env")
 
-    def __init__(self, fn, blocks, atoms, events, stores, ret, trace):
+    def __init__(self, fn, blocks, atoms, events, stores, ret, trace, env=None):
         self.fn, self.blocks, self.atoms, self.events, self.stores, self.ret, self.trace = fn, blocks, atoms, events, stores, ret, trace
+        self.env = env or {}      # locals of fn assigned on this path (root function only) -> final value
 
     # ---- queries ------------------------------------------------------------------------------------
     def calls(self, names=None, pred=None):
@@ -326,7 +327,7 @@ class Engine:
                     continue
                 seen_sig.add(sig)
                 if _consistent(st.atoms):
-                    out.append(SPath(f, blocks, st.atoms, st.events, st.stores, ret, st.trace if depth == self.depth else list(blocks)))
+                    out.append(SPath(f, blocks, st.atoms, st.events, st.stores, ret, st.trace if depth == self.depth else list(blocks), dict(st.env)))
             if len(out) > self.limit:
                 self.truncated = True
                 return None
@@ -381,6 +382,16 @@ class Engine:
             tg = dict(targets)
             want = tg.get(e[1], other)
             return want == nxt
+        # integer match: the edge taken says which literal the value equals (or that it equals none of them)
+        dty = t.get("dty", "")
+        if dty in ("u8", "u16", "u32", "u64", "u128", "usize", "i8", "i16", "i32", "i64", "i128", "isize", "char") and e[0] not in ("discr",):
+            hit = [v for v, tb in targets if tb == nxt]
+            if hit and nxt != other and len(hit) == 1:
+                return self.add_bool(st, norm_binop("Eq", e, ("const", hit[0], dty)), True, (f.name, b))
+            if nxt == other:
+                for v, tb in targets:
+                    if not self.add_bool(st, norm_binop("Eq", e, ("const", v, dty)), False, (f.name, b)):
+                        return False
         return True
 
     def add_bool(self, st, e, truth, where):
@@ -678,6 +689,22 @@ def _subst(e, args):
     if e == ("env",):
         return args[0] if args else e
     if e[0] == "field":
+        # precise captures: the closure reads env.*self.matrix while the aggregate names the capture "*self.matrix"
+        names = []
+        cur = e
+        while isinstance(cur, tuple) and cur and cur[0] == "field":
+            names.append(cur[2])
+            cur = cur[1]
+        if cur == ("env",) and args and isinstance(args[0], tuple) and args[0] and args[0][0] == "agg":
+            names.reverse()
+            caps = dict(args[0][3])
+            for k in range(len(names), 0, -1):
+                key = ".".join(names[:k])
+                if key in caps:
+                    out = caps[key]
+                    for n in names[k:]:
+                        out = project(out, n)
+                    return out
         return project(_subst(e[1], args), e[2])
     if e[0] == "variant":
         return downcast(_subst(e[1], args), e[2])
